@@ -99,12 +99,12 @@ def content_of(member, decoy=False):
     if tag == "pyg":
         return PYG_SRC % mark
     if tag == "abstract":
-        return b"Abstract text for a\nsecond line \n"
+        return b"Abstract text for a caf\xe9 (not UTF-8)\nsecond line \n"
     if tag == "gophermap":
         return b"iInfo line\n0A file\ta\n1A directory\td\n0Gone\tnope\n1Elsewhere\t/else\texample.org\t70\n"
     if tag == "links":
         return b"Name=Linked a\nPath=./a\nType=0\nAbstract=from the link file\n\nName=Far away\nPath=/far\nHost=example.org\nPort=70\nType=1\n"
-    return ("content of %s\n" % "/".join(member["p"])).encode()
+    return ("content of %s\n" % "/".join(member["p"])).encode() * 40          # compressible: stored size != size
 
 
 # ---- gamma: names ----------------------------------------------------------------------------
@@ -218,15 +218,18 @@ class Site:
             self.current = w
 
     # ---- gamma: one member list -> archive, twin, faithful extraction --------------------------
-    def build(self, ms, prune, names):
+    def build(self, ms, prune, names, loc=""):
         self.full.clear()
-        with open(os.path.join(self.root, "a"), "wb") as fp:           # ZQ/l -> ../a would reach this
-            fp.write(CANARY + b" root a\n")
+        self.loc = loc
+        os.makedirs(os.path.join(self.root, loc), exist_ok=True)
+        for rel in ("a", "../x"):                                       # what ZQ/l -> ../a, ../../x reach on disk
+            with open(os.path.normpath(os.path.join(self.root, loc, rel)), "wb") as fp:
+                fp.write(CANARY + b" outside\n")
         prune = {tuple(p) for p in prune}
-        zp = os.path.join(self.root, "ZQ.zip")
+        zp = os.path.join(self.root, loc, "ZQ.zip")
         for d in ("ZQ", "FQ"):
-            os.makedirs(os.path.join(self.root, d))
-        with zipfile.ZipFile(zp, "w") as zf:
+            os.makedirs(os.path.join(self.root, loc, d))
+        with zipfile.ZipFile(zp, "w", compression=zipfile.ZIP_DEFLATED) as zf:
             for m in ms:
                 rel = real_path(m["p"], names)
                 zi = _zipinfo(rel + ("/" if m["k"] == "d" else ""), names)
@@ -239,9 +242,10 @@ class Site:
                 else:
                     mode = 0o755 if m["tag"] in ("exec", "pyg") else 0o644
                     zi.external_attr = (stat.S_IFREG | mode) << 16
+                    zi.compress_type = zipfile.ZIP_DEFLATED
                     zf.writestr(zi, content_of(m))
                 for top in ("ZQ", "FQ"):
-                    path = os.fsencode(os.path.join(self.root, top, rel))
+                    path = os.fsencode(os.path.join(self.root, loc, top, rel))
                     if m["k"] == "d":
                         os.makedirs(path, exist_ok=True)
                         continue
@@ -257,7 +261,7 @@ class Site:
 
     def extract_event(self, ms, names):
         """alpha for the faithfully extracted tree: how the KERNEL resolves every link member."""
-        base = os.path.realpath(os.path.join(self.root, "FQ"))
+        base = os.path.realpath(os.path.join(self.root, self.loc, "FQ"))
         inv = {v: k for k, v in NAME_MAPS[names].items()}
         links = []
         for m in ms:
@@ -274,17 +278,18 @@ class Site:
         return {"ev": "extract", "links": links}
 
     def drop_index_cache(self):
-        for n in os.listdir(self.root):
+        d = os.path.join(self.root, self.loc)
+        for n in os.listdir(d):
             if n.startswith(".cache.pygopherd.zip"):
-                os.unlink(os.path.join(self.root, n))
+                os.unlink(os.path.join(d, n))
 
     def have_index_cache(self):
-        return any(n.startswith(".cache.pygopherd.zip") for n in os.listdir(self.root))
+        return any(n.startswith(".cache.pygopherd.zip") for n in os.listdir(os.path.join(self.root, self.loc)))
 
     # ---- one request + alpha ---------------------------------------------------------------
     def ask(self, w, top, sel, proto, names, audit=False):
         self.use(w)
-        s = "/" + top + ("/" + real_path(sel, names) if sel else "")
+        s = ("/" + self.loc if self.loc else "") + "/" + top + ("/" + real_path(sel, names) if sel else "")
         data, tls = wire(proto, s)
         a = self.audit
         a.update(spawn=0, imp=0, relopen=0, seen=[])
@@ -338,7 +343,7 @@ def alpha(proto, r, names):
         rb = real.encode("utf-8", "surrogateescape")
         b = b.replace(rb, tok.encode()).replace(urllib.parse.quote(rb).encode(), tok.encode())
         b = b.replace(rb.decode("utf-8", "backslashreplace").encode(), tok.encode())      # gemini descriptions
-    b = b.replace(b"ZQ.zip", b"ZQ")
+    b = b.replace(b"/y.zip/ZQ", b"/ZQ").replace(b"ZQ.zip", b"ZQ")
     for rx in _TS:
         b = rx.sub(b"", b)
     rec = {"st": "ok", "kind": "", "mime": "", "len": -1, "blen": 0, "h": "", "items": [], "msg": "", "canary": canary}
@@ -435,11 +440,11 @@ def _init_worker():
 
 def _run_case(job):
     """job = (case_id, ms, selrecs, prune, protos, names).  Returns list of traces (dicts)."""
-    cid, ms, selrecs, prune, protos, names = job
+    cid, ms, selrecs, prune, protos, names, loc = job
     site = _SITE
-    site.build(ms, prune, names)
+    site.build(ms, prune, names, loc)
     traces = [{"id": "%s#extract" % cid, "init": {"members": ms}, "events": [site.extract_event(ms, names)],
-               "case": {"members": [mname(m) for m in ms], "ms": ms, "names": names, "sel": "#extract", "prune": prune},
+               "case": {"members": [mname(m) for m in ms], "ms": ms, "names": names, "loc": loc, "sel": "#extract", "prune": prune},
                "extras": []}]
     # archive requests first (they need the full world), grouped to limit configuration switches
     zres = {}
@@ -466,7 +471,7 @@ def _run_case(job):
                                "spawn": aud["spawn"], "imp": aud["imp"], "relopen": aud["relopen"]})
                 extras.append({"zip": zx, "twin_full": tf[(s, p)][1], "twin_plain": tp[(s, p)][1]})
         traces.append({"id": "%s#%s" % (cid, "/".join(s)), "init": {"members": ms}, "events": events,
-                       "case": {"members": [mname(m) for m in ms], "ms": ms, "names": names, "sel": "/" + "/".join(s),
+                       "case": {"members": [mname(m) for m in ms], "ms": ms, "names": names, "loc": loc, "sel": "/" + "/".join(s),
                                 "selrec": sr, "prune": prune, "fw": sr["fw"], "dd": sr["dd"], "ro": sr["ro"],
                                 "mbox": sr["mb"]},
                        "extras": extras})
@@ -544,14 +549,14 @@ def main(chk, replay=None):
         c = rp["case"]
         sr = [c["selrec"]] if "selrec" in c else []
         jobs.append(("replay", c["ms"], sr, c.get("prune", []), [c["proto"]] if "proto" in c else t["fixed"],
-                     c.get("names", "ascii")))
+                     c.get("names", "ascii"), c.get("loc", "")))
     else:
         for n, (ms, sels, prune, _passes) in enumerate(cases):
             protos = t["fixed"] + ([t["rotate"][n % len(t["rotate"])]] if t["rotate"] else [])
-            jobs.append(("c%05d" % n, ms, sels, prune, protos, "ascii"))
+            jobs.append(("c%05d" % n, ms, sels, prune, protos, "ascii", "y.zip" if n % 5 == 2 else ""))
             for k, nm in enumerate(t["names"][1:]):
                 if t["name_stride"] and n % t["name_stride"] == k:
-                    jobs.append(("c%05d-%s" % (n, nm), ms, sels, prune, t["fixed"][:3], nm))
+                    jobs.append(("c%05d-%s" % (n, nm), ms, sels, prune, t["fixed"][:3], nm, ""))
     # 2./3. replay into the real server, record traces
     results = cachelib.pool_map(_run_case, jobs, _init_worker)
     traces = [tr for trs, _h in results for tr in trs]
@@ -570,7 +575,8 @@ def main(chk, replay=None):
                                       % (tr["id"], json.dumps(tr["events"][rj["at"] - 2])[:600]))
         e = tr["events"][rj["at"] - 2]
         case = dict(tr["case"], proto=e["p"], mode=e["mode"])
-        key = "%s|%s|%s|%s|%s|%s" % (rj["clause"], ",".join(case["members"]), case["sel"], e["p"], e["mode"], case["names"])
+        key = "%s|%s|%s|%s|%s|%s%s" % (rj["clause"], ",".join(case["members"]), case["sel"], e["p"], e["mode"], case["names"],
+                                       "|in " + case["loc"] if case.get("loc") else "")
         chk.violation(key, rj["clause"], case, {"event": e, "extras": tr["extras"][rj["at"] - 2]})
     chk.note_drift(tv["drift"])
     reqs = [e for tr in traces for e in tr["events"] if e["ev"] == "req"]
@@ -615,7 +621,7 @@ def selftest():
     ms = [{"p": ["a"], "k": "f", "dest": {"abs": False, "c": []}, "tag": "plain"},
           {"p": ["l"], "k": "l", "dest": {"abs": False, "c": ["a"]}, "tag": "link"}]
     sr = [{"s": ["l"], "args": False, "zf": "f", "zc": "f", "tk": "f", "ro": False, "mb": False, "fw": False, "dd": False}]
-    trs, _ = _run_case(("self", ms, sr, [], ["G", "H"], "ascii"))
+    trs, _ = _run_case(("self", ms, sr, [], ["G", "H"], "ascii", ""))
     good = [{"id": x["id"], "init": x["init"], "events": x["events"]} for x in trs]
     bad1 = json.loads(json.dumps(good[1]))
     bad1["id"] = "corrupt-digest"
